@@ -103,8 +103,16 @@ PROPS = {
             "stages": [HUB_STAGE, TRANS_STAGE, SUBEV_STAGE, {"kind": "cases", "name": "index", "driver": "C05", "n": {"quick": 800, "thorough": 10000}}],
             "rule": HUB_RULE + TRANS_RULE + " index: the operation histories of C05 against the real SubscriberList (private bit, claims, topics with the delimiter / escape characters): "
                     "who is handed a private update is decided there." + SUBEV_RULE, "trusted": HUB_TRUST + ["matching itself: C05/C11; token verification: C03"], "assumptions": []},
-    "C09": {"stages": [HUB_STAGE], "rule": HUB_RULE + " (kill -9 crash points are not exercised by this stage: restart here is a graceful stop)",
-            "trusted": HUB_TRUST + ["process death and power loss: bbolt's commit protocol is trusted, not exercised"], "assumptions": []},
+    "C09": {"binaries": ["verifh", "verifs"],
+            "stages": [{"kind": "cases", "name": "kill-points", "driver": "CRASH", "binary": "verifs", "n": {"quick": 1, "thorough": 1}}, HUB_STAGE],
+            "rule": "kill-points: a publish sequence on a real Bolt transport (sizes 0/2/3, initial history 0-3, 1-2 subscribers; thorough: sizes 0-4 x initial 0-5 x 4 publishes) "
+                    "under the cooperative scheduler; for EVERY scheduling point of the instrumented current sources (before/after the write transaction, between persistence and "
+                    "fan-out, inside cleanup, in the subscriber's methods) all goroutines are frozen for ever, the history file is copied as the kill left it and reopened: it must "
+                    "reopen, hold exactly the retention window of some number of publications >= everything acknowledged or already handed to a subscriber, and report the last "
+                    "stored id. hub-histories: " + HUB_RULE + " (restarts there are graceful stops)",
+            "trusted": HUB_TRUST + ["a frozen process with the file copied stands for kill -9 (page cache survives); power loss and bbolt's fsync protocol are not exercised",
+                                    "the kill points are the scheduling points of mercure's own statements: a kill inside bbolt's commit is bbolt's atomicity (trusted)"],
+            "assumptions": []},
     "C15": {"binaries": ["verifh", "verifs"], "stages": [HUB_STAGE, TRANS_STAGE], "rule": HUB_RULE + TRANS_RULE, "trusted": HUB_TRUST, "assumptions": []},
     "C20": {"stages": [HUB_STAGE], "rule": HUB_RULE, "trusted": HUB_TRUST, "assumptions": []},
     "C13": {
